@@ -84,6 +84,8 @@ func (m *errMonitor) check(in c20Input, err error, entry string, validation bool
 	switch e := err.(type) {
 	case *gqlerror.Error:
 		if e == nil {
+			// a non-nil error value that holds a nil *gqlerror.Error: callers see a failure whose Error() is empty
+			bad("error/hollow-nil-pointer entry="+entry, entry+" returned a non-nil error holding a nil *gqlerror.Error (no message, encodes as null)")
 			return
 		}
 		list = gqlerror.List{e}
